@@ -81,7 +81,7 @@ func (stubGroups) GetAvailableGroupsByMinerId(height uint64, minerId []byte) []*
 	}
 	return out
 }
-func (stubGroups) GetGroupById(id []byte) *types.Group              { return nil }
+func (stubGroups) GetGroupById(id []byte) *types.Group             { return nil }
 func (stubGroups) GetBlockHeader(height uint64) *types.BlockHeader { return nil }
 
 // ---------------------------------------------------------------------------
